@@ -12,12 +12,12 @@ UN = ["neg", "neg(ref)", "pow", "exp", "log", "norm_cdf", "inv_norm_cdf", "abs",
 KN = {"f": "f64", "d": "Dual", "d2": "Dual2"}
 
 
-def mknum(rng, kind, positive=False):
+def mknum(rng, kind, positive=False, re=None):
     lay = rng.choice([[], ["x"], ["y", "x"], ["x", "y", "z"], ["z"]])
     if kind == "f":
         v = rng.uniform(0.1, 0.9) if positive else float(rng.choice([1.5, -2.0, 0.25, 3.0, -0.75, 7.0]))
-        return ("f", v)
-    n = c03.mk(rng, 1 if kind == "d" else 2, lay, re=(rng.uniform(0.1, 0.9) if positive else None))
+        return ("f", v if re is None else re)
+    n = c03.mk(rng, 1 if kind == "d" else 2, lay, re=(re if re is not None else rng.uniform(0.1, 0.9) if positive else None))
     return n
 
 
@@ -33,12 +33,20 @@ def gen_cases(ctx):
                 for _ in range(reps):
                     a, b = mknum(rng, ka), mknum(rng, kb)
                     cases.append(("bin", [12, oc] + dg.enc_number(a) + dg.enc_number(b), "%s %s %s" % (KN[ka], BIN[oc], KN[kb]), oc))
+                # SPECIAL VALUES in every cell: a unit operand on either side, equal and opposite values
+                for ra, rb in ((1.0, None), (None, 1.0), (-1.0, None), (2.5, 2.5), (-3.0, 3.0), (1.0, 1.0)):
+                    a, b = mknum(rng, ka, re=ra), mknum(rng, kb, re=rb)
+                    cases.append(("bin", [12, oc] + dg.enc_number(a) + dg.enc_number(b), "%s %s %s" % (KN[ka], BIN[oc], KN[kb]), oc))
     for ka in kinds:
         for oc in range(10):
             for side in (0, 1):
                 for _ in range(reps):
                     a = mknum(rng, ka)
                     f = float(rng.choice([2.0, -1.5, 0.5, 3.0, -4.0]))
+                    desc = ("%s %s f64" if side == 0 else "f64 %s %s") % ((KN[ka], BIN[oc]) if side == 0 else (BIN[oc], KN[ka]))
+                    cases.append(("binf", [13, oc, side] + dg.enc_number(a) + dg.enc_f(f), desc, oc))
+                for ra, f in ((None, 1.0), (None, -1.0), (1.0, 2.0), (2.5, 2.5), (-3.0, 3.0)):
+                    a = mknum(rng, ka, re=ra)
                     desc = ("%s %s f64" if side == 0 else "f64 %s %s") % ((KN[ka], BIN[oc]) if side == 0 else (BIN[oc], KN[ka]))
                     cases.append(("binf", [13, oc, side] + dg.enc_number(a) + dg.enc_f(f), desc, oc))
         for oc in range(13):
